@@ -81,7 +81,7 @@ def rand_ops(rng, tier, nmax=14):
     tids = [rng.choice(TIDS[:4]) for _ in range(2)] + [rng.choice(TIDS)]
     for _ in range(n):
         if rng.chance(1, 9):
-            size = rng.choice([1, 2, 3, 4, 5, 64, 127, 128, 129, 4096, 65536, 0x7FFFFFFF, rng.range(1, 300), rng.range(1, 70000),
+            size = rng.choice([1, 2, 3, 4, 5, 64, 127, 128, 129, 4096, 4097, 5000, 8192, 65536, 0x7FFFFFFF, rng.range(1, 300), rng.range(1, 70000),
                                16777215, 16777216, 16777217, 0x1000080, 0x2000000, 0x7F000000, rng.range(1 << 24, (1 << 31) - 1)])
             if rng.chance(1, 25):
                 size = rng.choice([0, 0x80000000, 0xFFFFFFFF])      # refused
@@ -94,6 +94,7 @@ def rand_ops(rng, tier, nmax=14):
             tid = 8
         prev = last.get(tid)
         sid = prev[1] if prev and rng.chance(5, 6) else rng.choice([0, 1, 1, 2, 0xFFFFFFFF, rng.below(M32)])
+        # payloads are scaled to the chunk size up to 5000 (chunk sizes 4097 and 5000 give multi-chunk messages above the 4096 mark)
         pl = prev[2] if prev and rng.chance(1, 2) else rand_payload_spec(rng, min(cs, 5000), tier)
         if prev and rng.chance(1, 3) and pl[0] == "r":       # same length, other content
             pl = "r%s.%d" % (pl[1:].split(".")[0], rng.below(1 << 20))
@@ -260,7 +261,7 @@ def senc(rng, tier, interleave):
     while produced < nmsg or pending:
         # in-band chunk size change between messages (only when nothing is in flight: applies to all streams)
         if not pending and rng.chance(1, 7):
-            newcs = rng.choice([1, 2, 3, 7, 64, 128, 129, 1000, 4096, rng.range(1, 500)])
+            newcs = rng.choice([1, 2, 3, 7, 64, 128, 129, 1000, 4096, 4097, 5000, 8192, rng.range(1, 500)])
             if rng.chance(1, 5):
                 # every announced size up to 2^31 - 1 is legal, also those above the 24-bit message length limit
                 newcs = rng.choice([65536, 16777215, 16777216, 0x1000080, 0x7FFFFFFF, rng.range(1 << 24, (1 << 31) - 1)])
